@@ -367,10 +367,11 @@ func runROne(t *testing.T, ch *vs.Choices, prop, tier string, render bool, p *rP
 			srv := &rServer{sim: sim, state: "up", version: 1, path: srvPath, nested: p.Nested}
 			http.DefaultClient.Transport = srv
 			// model
-			approved := 0      // version whose checksum the user last approved (0 = none)
-			cacheGood := false // a copy has been downloaded and approved and nothing has damaged the cache since
-			cacheVersion := 0  // version of that copy
-			approved2 := false // (second origin) the user approved its fixed content
+			approved := 0             // version whose checksum the user last approved (0 = none)
+			approvedBeforeCrash := -2 // see below: the approval on record if the last approval event was cut short by a crash
+			cacheGood := false        // a copy has been downloaded and approved and nothing has damaged the cache since
+			cacheVersion := 0         // version of that copy
+			approved2 := false        // (second origin) the user approved its fixed content
 			cacheGood2 := false
 			cacheDir := filepath.Join(dir, ".task", "remote")
 			for si, s := range p.Steps {
@@ -549,6 +550,15 @@ func runROne(t *testing.T, ch *vs.Choices, prop, tier string, render bool, p *rP
 				// approval events of this invocation: the user answered y to the prompt shown for the content the
 				// server currently serves, or --yes accepted it ("[assuming yes]")
 				if (prompted > 0 && s.Answer == "y") || assumedYes > 0 {
+					if crashed {
+						// the process was killed after the user (or --yes) had accepted the new content but possibly
+						// before that acceptance was recorded: only durable state survives, so what is on record is
+						// the old approval or the new one
+						approvedBeforeCrash = approved
+						out.Hit("approval_event_then_crash")
+					} else {
+						approvedBeforeCrash = -2
+					}
 					approved = srv.version
 					out.Hit("approval_event")
 					if srv.state == "ctype" {
@@ -581,7 +591,7 @@ func runROne(t *testing.T, ch *vs.Choices, prop, tier string, render bool, p *rP
 					out.Hit("nested_plain_http_include")
 					continue
 				}
-				if ran != 0 && ran != approved {
+				if ran != 0 && ran != approved && ran != approvedBeforeCrash {
 					sig := "unapproved_content_ran"
 					if ran == 99 {
 						sig += "|cache_content_replaced"
